@@ -6,7 +6,7 @@
 #   * R9: the lock guard line of each function is dropped (single-threaded semantics only);
 #   * critical_context_level() is stubbed to 0 (glue): the abort() branch is the interrupt-context guard;
 #   * the heap base: `extern char _heap_start;` is a linker symbol; here _heap_start is the first byte of
-#     the harness arena c10_arena[] (glue #define), so &_heap_start == c10_arena;
+#     the harness arena c10_arena_w[] seen as bytes (glue #define), so &_heap_start == (char *)c10_arena_w;
 #   * the global state lines (__allocation_counter, __malloc_heap_start, __brkval, __flp) are copied verbatim.
 [{
  'out': 'cxx/lin_heap.c',
@@ -15,7 +15,7 @@
                          '#include "compat/mem/lin_malloc.h"\n'
                          '#ifndef __WORDSIZE\n#error "__WORDSIZE is expected from the C library headers (glibc: 64)"\n#endif\n'
                          'static inline int critical_context_level(void) { return 0; }\n'
-                         'extern char c10_arena[];\n#define _heap_start (c10_arena[0])\n'},
+                         'extern size_t c10_arena_w[];\n#define c10_arena ((char *)c10_arena_w)\n#define _heap_start (c10_arena[0])\n'},
   {'op': 'lines', 'file': 'compat/mem/lin_malloc.cpp', 'regex': r'^(int __allocation_counter = 0;|char \*__malloc_heap_start = &_heap_start;|char \*__brkval = NULL;|struct __freelist \*__flp = NULL;)$', 'min': 4},
   {'op': 'func', 'file': 'compat/mem/lin_malloc.cpp', 'name': 'malloc', 'as': 'lin_malloc',
    'rewrite': [[r'^[ \t]*igris::syslock_guard lguard;[ \t]*\n', '', 1]]},
